@@ -2,7 +2,9 @@
   Driver for C05: a whole-simulation scenario in (request format of `AcnModel/WireSim.lean`), out
   the full observable trajectory of `Sim.run` (as `drv_C01`) PLUS
     "views" : every view handed to the scheduler along the run (`Sim.runViews`), in call order,
-    "infra" : the static infrastructure description (`Sim.infra`).
+    "infra" : the static infrastructure description (`Sim.infra`),
+    "infra_full" : every InfrastructureInfo field (`Sim.infraInfo`) when the request carries
+                   "net": {"phases":[bits], "constraints":[{"current":[[station,bits]…],"limit":bits,"name":str|null}]}.
 -/
 import AcnModel.WireSim
 import AcnModel.SchedView
@@ -23,12 +25,33 @@ def jStationInfo (i : StationInfo Float) : Json :=
   Json.mkObj [("id", jS i.id), ("V", jF i.voltage), ("max", jF (fOfBound i.maxPilot)), ("min", jF i.minPilot),
               ("continuous", jB i.continuous), ("allowable", jFs (i.allowable.map fOfBound))]
 
+def parseNet (j : Json) : Except String (NetDesc Float) := do
+  let phases ← getFs j "phases"
+  let cs ← (← getArr j "constraints").mapM fun c => do
+    let cur ← (← getArr c "current").mapM fun p => do
+      match ← asArr p with
+      | [s, v] => pure (← s.getStr?, ← asF v)
+      | _ => throw "current entry must be [station, coefficient]"
+    let name ← getOpt c "name" (fun v => v.getStr?)
+    pure (Network.Current.ofDict cur, ← getF c "limit", name)
+  pure { phases, constraints := cs }
+
+def jInfra (i : Infra Float) : Json :=
+  Json.mkObj [("constraint_matrix", jFss i.constraintMatrix), ("constraint_limits", jFs i.constraintLimits),
+              ("phases", jFs i.phases), ("voltages", jFs i.voltages),
+              ("constraint_ids", jList jS i.constraintIds), ("station_ids", jList jS i.stationIds)]
+
 def handle (j : Json) : Except String Json := do
   let cfg ← parseSimCfg j
   let sched ← parseSched (← j.getObjVal? "sched")
   let fuel := fuelFor cfg.core
   let r := Sim.run cfg sched fuel (Sim.init cfg)
   let vs := Sim.runViews cfg sched fuel (Sim.init cfg)
-  pure (((jResult cfg r).setObjVal! "views" (jList jView vs)).setObjVal! "infra" (jList jStationInfo (infra cfg)))
+  let out := ((jResult cfg r).setObjVal! "views" (jList jView vs)).setObjVal! "infra" (jList jStationInfo (infra cfg))
+  match j.getObjVal? "net" with
+  | .error _ => pure out
+  | .ok nj =>
+    let nd ← parseNet nj
+    pure (out.setObjVal! "infra_full" (jInfra (infraInfo cfg nd)))
 
 def main : IO Unit := runDriver handle
